@@ -329,6 +329,7 @@ def run_case(concepts, case, spec):
     # same lattice object with other callbacks
     call(lat.graphviz, make_object_label=Recorder('L', literal=True), make_property_label=Recorder('M', literal=True))
     call(lat.graphviz, make_object_label=FalsyRecorder('F'), make_property_label=FalsyRecorder('G'))
+    call(lat.graphviz, None, None, False, False, Recorder('W'), Recorder('Y'))     # documented positional order
     call(lat.graphviz, make_object_label=Recorder('Q'))
     call(lat.graphviz, make_property_label=Recorder('R'))
     call(lat.graphviz)
